@@ -218,6 +218,27 @@ static void fixed_slot_by_reference()
     delete outer;
     out += ",copy_empty=" + std::to_string(copy.empty());
   }
+  { // C: a copy of the outer slot dies first; the original stays the inner slot's parent
+    g_tr.assign(1, nullptr); g_tr[0] = new Tr(0);
+    sigc::slot<long()> inner = sigc::mem_fun(*g_tr[0], &Tr::m0);
+    auto* outer = new sigc::slot<long()>(sigc::bind(CallSlot(), std::ref(inner)));
+    { sigc::slot<long()> copy = *outer; }
+    { sigc::slot<long()> copy2 = *outer; copy2 = sigc::slot<long()>(); }
+    { sigc::signal<long()> sig; sig.connect(*outer); sig.clear(); }
+    delete g_tr[0]; g_tr[0] = nullptr;
+    out += " C:inner_empty=" + std::to_string(inner.empty()) + ",outer_empty=" + std::to_string(outer->empty());
+    delete outer;
+  }
+  { // D: the parent dies, a later outer slot adopts the inner slot
+    g_tr.assign(1, nullptr); g_tr[0] = new Tr(0);
+    sigc::slot<long()> inner = sigc::mem_fun(*g_tr[0], &Tr::m0);
+    auto* outer1 = new sigc::slot<long()>(sigc::bind(CallSlot(), std::ref(inner)));
+    delete outer1;
+    auto* outer2 = new sigc::slot<long()>(sigc::bind(CallSlot(), std::ref(inner)));
+    delete g_tr[0]; g_tr[0] = nullptr;
+    out += " D:outer2_empty=" + std::to_string(outer2->empty());
+    delete outer2;
+  }
   g_tr.clear(); g_log.clear();
   printf("fixed slotref %s\n", out.c_str());
   fflush(stdout);
